@@ -317,10 +317,18 @@ func cmdCheck(args []string) int {
 	knownSeen := map[int]bool{}
 	nViol := 0
 	seenVL := map[string]int{}
+	skippedReplays := 0
+	const maxReplaysPerLabel = 24
 	for n, v := range violations {
-		key := v.Harness + "|" + v.Label
+		key := fmt.Sprintf("%s|%v|%s", v.Harness, v.Params, v.Label)
 		seenVL[key]++
-		if seenVL[key] > 3 {
+		if seenVL[key] > 1 {
+			continue
+		}
+		hl := v.Harness + "|" + v.Label
+		seenVL[hl]++
+		if seenVL[hl] > maxReplaysPerLabel {
+			skippedReplays++
 			continue
 		}
 		file := filepath.Join(replayDir, fmt.Sprintf("%s_%s_%d.json", strings.ReplaceAll(v.Harness, ".", "_"), sanitize(v.Label), n))
@@ -482,6 +490,7 @@ func cmdCheck(args []string) int {
 			"discrepancies":   discrepancies,
 			"known_findings":  knownLines(outLines),
 			"violation_count": len(violations),
+			"counterexamples_not_replayed_over_cap": skippedReplays,
 		},
 	}
 	os.MkdirAll(filepath.Join(*vdir, "evidence"), 0o755)
